@@ -142,7 +142,12 @@ class Gen:
         elif overflow and r.random() < .05:
             self.note('rep-overflow')
             reps = 2
-        return self.ec['REPETITION'].join(self.by_ref(ref, 0, mode, overflow) for _ in range(reps))
+        parts = [self.by_ref(ref, 0, mode, overflow) for _ in range(reps)]
+        if (mx == -1 or mx > 2) and r.random() < .25:
+            # an interior or leading empty repetition: still canonical (the last repetition is not empty)
+            self.note('rep-interior-empty')
+            parts.insert(r.randrange(len(parts)), '')
+        return self.ec['REPETITION'].join(parts)
 
     def segment(self, name, mode='canon', overflow=False, fill=.35):
         """ER7 text of one segment of this version (not MSH)"""
@@ -169,7 +174,15 @@ class Gen:
             else:
                 self.note('row-none-ref')
                 fields.append(self.text_value())
-        if overflow and r.random() < .08:
+        last_ref = rows[-1][1] if is_seq(rows[-1]) and len(rows[-1]) == 4 else None
+        open_ended = well_formed_ref(last_ref) and len(last_ref) == 6 and last_ref[2] == 'varies'
+        if open_ended and r.random() < .5:
+            # varies-terminated segment: fields beyond the defined count, on both sides of index 10
+            self.note('open-ended-extra')
+            fields += [''] * (n - last)
+            extra = r.randint(2, 14)
+            fields += [self.text_value(False) if (i == extra - 1 or r.random() < .6) else '' for i in range(extra)]
+        elif overflow and r.random() < .08:
             self.note('field-overflow')
             fields += [''] * (n - last) + [self.text_value()]
         return name + fs + fs.join(fields)
@@ -178,7 +191,7 @@ class Gen:
         r = self.rng
         name = name or ('Z' + r.choice(string.ascii_uppercase) + r.choice(string.ascii_uppercase + '123456789'))
         fs = self.ec['FIELD']
-        n = r.randint(1, 6)
+        n = r.choice([1, 2, 3, 4, 6, 9, 10, 11, 13, 15, 21])
         return name + fs + fs.join(self.text_value() if (i == n - 1 or r.random() < .6) else '' for i in range(n))
 
     def msh(self, mtype, ctrl='1'):
